@@ -1,6 +1,7 @@
 """Corpus K (DESIGN 4): Linearizer::linearize on generated models, judged by
 spec/lin/LinTrace.tla.  Serves C01, C02, C07(a) and C08."""
 import hashlib
+import glob
 import json
 import os
 
@@ -62,6 +63,10 @@ def gen_all(tier, seed, per_family_quick=300):
             k = max(1, len(cases) // per_family_quick)
             cases = cases[seed % k::k]
         out += cases
+    # source models of defects found earlier (fixed in /repo): always part of the corpus
+    reg = [json.load(open(f)) for f in sorted(glob.glob(os.path.join(SPEC_DIR, "regress", "*.json")))]
+    meta["regress"] = {"cases": len(reg)}
+    out += reg
     return out, meta
 
 
@@ -143,8 +148,8 @@ def check(prop, tier, seed, replay=None):
     full = tier == "thorough" and not replay
     o.level = "model_checking"
     o.coverage = {
-        "states": v.distinct + sum(m["gen_states"] for m in meta.values()),
-        "transitions": v.generated + sum(m["gen_transitions"] for m in meta.values()),
+        "states": v.distinct + sum(m.get("gen_states", 0) for m in meta.values()),
+        "transitions": v.generated + sum(m.get("gen_transitions", 0) for m in meta.values()),
         "traces_validated_against_impl": len(v.stats) if prop != "C08" else sum(1 for e in events if e.get("out") in ("ok", "err")),
         "samples": samples or [{"note": "no sample with auxiliaries in this run"}],
         "evaluations": sum(s[2] for s in v.stats),
